@@ -3061,7 +3061,17 @@ define_method(CPPInstance *function, InterrogateType &itype,
     return;
   }
 
-  if ((function->_storage_class & CPPInstance::SC_inherited_virtual) != 0 &&
+  // A destructor can only be shared with the base class if the base class has
+  // one that we export (it may be protected there and public here).
+  bool can_inherit = true;
+  if ((ftype->_flags & CPPFunctionType::F_destructor) != 0 &&
+      struct_type->_derivation.size() == 1) {
+    CPPStructType *base = struct_type->_derivation[0]._base->as_struct_type();
+    can_inherit = (base == nullptr || base->is_destructible());
+  }
+
+  if (can_inherit &&
+      (function->_storage_class & CPPInstance::SC_inherited_virtual) != 0 &&
       struct_type->_derivation.size() == 1 &&
       struct_type->_derivation[0]._vis <= V_public &&
       !struct_type->_derivation[0]._is_virtual) {
